@@ -75,7 +75,8 @@ theorem push_lists (s : State) (G : List RRegion) (cs : List Int) (k i : Nat) (c
     (g : RRegion) (hdesc : cs.Pairwise (· > ·)) (hk : cs[k]? = some c) (hl : Lists s G cs (k + 1) rr)
     (hi : rr.order[i]? = some l) (hg : G[i]? = some g) (rr2 : RowReord PS)
     (ho : rr2.order = rr.order.modify i (· ++ [c])) (hs1 : rr2.store.1 = rr.store.1)
-    (hs2 : rr2.store.2 = upd rr.store.2 c (s.rowY g.row)) : Lists s G cs k rr2 := by
+    (hs2 : rr2.store.2 = upd rr.store.2 c (s.rowY g.row))
+    (hfit : allocatedWidth s (l ++ [c]) ≤ g.width) (hal : s.isRowAllowed c g.row = true) : Lists s G cs k rr2 := by
   have hn := desc_nodup hdesc
   obtain ⟨hlt, heq⟩ := List.getElem?_eq_some_iff.1 hk
   have hdrop : cs.drop k = c :: cs.drop (k + 1) := by rw [List.drop_eq_getElem_cons hlt, heq]
@@ -102,7 +103,7 @@ theorem push_lists (s : State) (G : List RRegion) (cs : List Int) (k i : Nat) (c
   have hgetn : ∀ (n : Nat) l', n ≠ i → rr.order[n]? = some l' → rr2.order[n]? = some l' := by
     intro n l' hne h
     rw [ho, List.getElem?_modify]; simp [Ne.symm hne, h]
-  refine ⟨?_, ?_, ?_, ?_, ?_, ?_⟩
+  refine ⟨?_, ?_, ?_, ?_, ?_, ?_, ?_, ?_⟩
   · intro n l' hl'
     rcases hget n l' hl' with ⟨rfl, rfl⟩ | ⟨_, h⟩
     · rw [List.nodup_append]
@@ -155,6 +156,17 @@ theorem push_lists (s : State) (G : List RRegion) (cs : List Int) (k i : Nat) (c
     rw [hs1, hs2]
     simp only [upd, hne, if_false]
     exact hl.frame d hd
+  · intro n l' g' hl' hg' hne
+    rcases hget n l' hl' with ⟨rfl, rfl⟩ | ⟨_, h⟩
+    · rw [hg] at hg'; injection hg' with hg'; subst hg'; exact hfit
+    · exact hl.fits n l' g' h hg' hne
+  · intro n l' g' hl' hg' d hd
+    rcases hget n l' hl' with ⟨rfl, rfl⟩ | ⟨_, h⟩
+    · rw [hg] at hg'; injection hg' with hg'; subst hg'
+      rcases List.mem_append.1 hd with hd | hd
+      · exact hl.allowed n l g hi hg d hd
+      · simp at hd; subst hd; exact hal
+    · exact hl.allowed n l' g' h hg' d hd
 
 theorem runRegionChoice_spec (V : Value) (s : State) (G : List RRegion) (cs : List Int) (v0 : Int)
     (hnn : ∀ c ∈ cs, 0 ≤ c) (hdesc : cs.Pairwise (· > ·)) :
@@ -192,11 +204,13 @@ theorem runRegionChoice_spec (V : Value) (s : State) (G : List RRegion) (cs : Li
       unfold regionStep
       split
       · -- the cell fits: recursive call
+        rename_i hcond
+        rw [getD_of_some hil, hgd] at hcond
         have hs2 : Shape G cs (tellY (pureStore V) c (s.rowY (rr1.regions.getD i default).row) (pushBack i c rr1)) :=
           ⟨hs1.regions, hs1.cells, by show (rr1.order.modify i _).length = _; simp [hs1.olen], hs1.plen⟩
         have hl2 := push_lists s G cs k i c rr1 l g hdesc hc hl1 hil hg
           (tellY (pureStore V) c (s.rowY (rr1.regions.getD i default).row) (pushBack i c rr1))
-          rfl rfl (by rw [hgd]; rfl)
+          rfl rfl (by rw [hgd]; rfl) hcond.1 hcond.2
         have hso2 : SortedAll (tellY (pureStore V) c (s.rowY (rr1.regions.getD i default).row) (pushBack i c rr1)) := by
           intro n l' hl'
           have hl'' : (rr1.order.modify i (· ++ [c]))[n]? = some l' := hl'
@@ -215,11 +229,11 @@ theorem runRegionChoice_spec (V : Value) (s : State) (G : List RRegion) (cs : Li
             cases h : rr1.order[n]? with
             | none => rw [h] at hl''; simp at hl''
             | some x => rw [h] at hl''; simp at hl''; subst hl''; exact hso1 n x h
-        have post := runRegionChoice_spec V s G cs v0 hnn hdesc k _ (by omega) hs2 hl2 hso2 ⟨hb1.faithful, hb1.kb⟩
+        have post := runRegionChoice_spec V s G cs v0 hnn hdesc k _ (by omega) hs2 hl2 hso2 ⟨hb1.faithful, hb1.kb, hb1.bestwf⟩
         have hord : (runRegionChoice (pureStore V) s k
             (tellY (pureStore V) c (s.rowY (rr1.regions.getD i default).row) (pushBack i c rr1))).order =
             rr1.order.modify i (· ++ [c]) := post.order
-        refine ⟨post.regions, post.cells, ?_, post.plen, ?_, ?_, post.fuel, ?_, ⟨post.book.faithful, post.book.kb⟩⟩
+        refine ⟨post.regions, post.cells, ?_, post.plen, ?_, ?_, post.fuel, ?_, ⟨post.book.faithful, post.book.kb, post.book.bestwf⟩⟩
         · show (List.modify _ i List.dropLast) = rr1.order
           rw [hord, modify_push_pop]
         · intro d hd
@@ -240,7 +254,7 @@ theorem runRegionChoice_spec (V : Value) (s : State) (G : List RRegion) (cs : Li
           show (rr1.assertFail || _) = rr1.assertFail
           simp
       · -- the cell does not fit: pushed and popped at once
-        refine ⟨rfl, rfl, ?_, rfl, fun _ _ => rfl, fun _ _ => rfl, rfl, ?_, ⟨hb1.faithful, hb1.kb⟩⟩
+        refine ⟨rfl, rfl, ?_, rfl, fun _ _ => rfl, fun _ _ => rfl, rfl, ?_, ⟨hb1.faithful, hb1.kb, hb1.bestwf⟩⟩
         · show (List.modify (rr1.order.modify i (· ++ [c])) i List.dropLast) = rr1.order
           rw [modify_push_pop]
         · show (rr1.assertFail || _) = rr1.assertFail
@@ -343,11 +357,16 @@ theorem run_spec (V : Value) (s : State) (rr0 : RowReord PS) (hf : Fresh rr0) (h
      fun d hd => by rw [hlen, List.drop_length] at hd; simp at hd,
      fun i i' l l' h _ c hc _ => by rw [hf.empty i l h] at hc; simp at hc,
      fun i l g h _ c hc => by rw [hf.empty i l h] at hc; simp at hc,
-     fun d _ => by show rr0.store.1 d = _ ∧ rr0.store.2 d = _; rw [hst]; exact ⟨rfl, rfl⟩⟩
+     fun d _ => by show rr0.store.1 d = _ ∧ rr0.store.2 d = _; rw [hst]; exact ⟨rfl, rfl⟩,
+     fun i l g h _ hne => absurd (hf.empty i l h) hne,
+     fun i l g h _ c hc => by rw [hf.empty i l h] at hc; simp at hc⟩
     (fun i l h => by rw [hf.empty i l h]; exact List.Pairwise.nil)
     ⟨fun leaf hl => by rw [show ({ rr0 with bestVal := _, cells := _ } : RowReord PS).leaves = rr0.leaves from rfl, hf.leaves] at hl; simp at hl,
      by show keepBest (V s.x s.y) rr0.leaves.reverse none = (_, if rr0.improvement = true then _ else none)
-        rw [hf.leaves, hf.improvement, hv0]; rfl⟩
+        rw [hf.leaves, hf.improvement, hv0]; rfl,
+     fun h => by
+      have : rr0.improvement = true := h
+      rw [hf.improvement] at this; cases this⟩
   refine ⟨post.fuel, post.asrt, post.cells, post.regions, post.book, ?_⟩
   intro d hd
   have hd' : d ∉ sortDesc rr0.cells := fun h => hd ((sortDesc_perm rr0.cells).mem_iff.1 h)
